@@ -50,6 +50,12 @@ pub fn generate05(seed: u64, run: u64, _tier: Tier) -> Plan05 {
     if matches!(profile, Profile::Wide | Profile::Churn) {
         cfg.steps = rng.range(40, 150);
     }
+    // state whose in-memory and persisted forms can drift apart: indexes, aliases, removals
+    if rng.chance(1, 2) {
+        cfg.w[8] = cfg.w[8] * 3 + 10;
+        cfg.w[9] = cfg.w[9] * 3 + 8;
+        cfg.steps = cfg.steps.max(rng.range(8, 20));
+    }
     let ops = crate::dbprog::generate(&mut rng, cfg);
     let real_files = rng.chance(1, 3);
     let variant = if real_files { *rng.pick(&ALL_VARIANTS) } else { *rng.pick(&FILE_VARIANTS) };
